@@ -16,7 +16,7 @@ FAULT_DIMENSION = "beyond_horizon schedules at any call incl. the last period; m
 ASSUMPTIONS = ["pilot values in scripts are valid for each EVSE class (C13 covers invalid ones)",
                "EVSEs with a continuous range excluding 0 are not generated (an uncovered period would be invalid)"]
 
-PROFILE = world.profile(second_life=0.15, party={"scripted": 1}, evse_kinds={"cont": 4, "dead": 2, "finite": 3, "cont_inf": 1, "cont_neg": 1}, faults={"crash": 0.3, "beyond_horizon": 0.5, "malformed": 0.4},
+PROFILE = world.profile(second_life=0.15, party={"scripted": 1}, evse_kinds={"cont": 4, "dead": 2, "finite": 3, "cont_inf": 1, "cont_neg": 1}, faults={"crash": 0.3, "beyond_horizon": 0.5, "malformed": 0.4, "future_invalid": 0.3},
                         resume_modes=["rerun", "rerun", "json_str", "json_buf"], max_recompute=[None, None, 1, 2, 3, 5], extra_recompute=0.6)
 
 
@@ -24,7 +24,15 @@ def gen(rs, tier):
     P = PROFILE
     if tier == "thorough" and rs % 10 == 0:
         P = dict(P, stations=(3, 10), horizon=(20, 100), sessions_cap=24)
-    return world.gen_world(rs, P)
+    sc = world.gen_world(rs, P)
+    rq = world.sub(rs, "c04x")
+    if rq.random() < 0.2:
+        # a scheduler that is asked every period and always names every station (plans get replaced before their tail is used)
+        sc["party"].update(max_recompute=1, subset_mode="all", empty_prob=0)
+        sc["faults"] = world.gen_faults(rs, sc, P)
+    if rq.random() < 0.1:
+        sc["party"]["reuse_mapping"] = True      # one mapping object, refilled in place at every call
+    return sc
 
 
 def model_map(sc, calls):
@@ -64,6 +72,9 @@ def check(sc):
     out.probe("overlap_diff_len", ov)
     out.probe("omitted_station", om)
     out.probe("empty_schedule", sum(1 for t, L, n in shapes if L == 0))
+    out.probe("plan_with_invalid_tail_accepted", sum(1 for c in tr.calls if c.get("future_invalid") and c.get("completed")))
+    if sc["party"].get("reuse_mapping"):
+        out.probe("one_mapping_object_refilled")
     bh = [c for c in tr.calls if c.get("beyond") and c.get("completed")]
     out.probe("beyond_horizon", len(bh))
     lt = world.last_event_time(sc)
